@@ -199,7 +199,9 @@ mutual
                     else (Json.parse (tokStr src param), rest1)
                   match jsonRes with
                   | some j => .ok (.lit j, rest2)
-                  | none => .err { reason := .invalidParam (tokStr src param) }
+                  | none =>
+                    let (l, c) := lineCol src param.s
+                    .err { reason := .invalidParam (tokStr src param), line := some l, col := some c }
             else if param.rule == some .r_subexpression then
               match parseExpression src fuel param.e rest with
               | .ok (es, rest') => .ok (mkSubexpr es, rest')
@@ -284,7 +286,7 @@ def processStandalone (stk : List Tmpl) (src : Str) (s e : Nat) (preventIndent i
   match slice? src e src.length with
   | none => .panic "tpl.standalone.slice_cont"
   | some cont =>
-    let withTrailing := startsWithEmptyLine cont || (!isPartial && cont.isEmpty)
+    let withTrailing := startsWithEmptyLine cont || (!isPartial && (trimStartBlank cont).isEmpty)
     if withTrailing then
       match slice? src 0 s with
       | none => .panic "tpl.standalone.slice_before"
@@ -486,11 +488,19 @@ def compileStep (src : Str) (opts : TemplateOptions) (fuel : Nat) (st : CState) 
       pure ({ st with tmplStack := stk }, it)
     else if rule == some .r_invert_tag || rule == some .r_invert_chain_tag then do
       let isChain := rule == some .r_invert_chain_tag
+      -- a `~` comes before the `else` keyword
+      let (chainOmitPre, it) : Bool × List CTok :=
+        if isChain then
+          match it with
+          | tk :: rest => if tk.rule == some .r_leading_tilde_to_omit_whitespace then (true, rest) else (false, it)
+          | [] => (false, it)
+        else (false, it)
       let it ← (if isChain then do
           let (_, it') ← parseName src fuel it
           pure it'
         else pure it)
-      let (exp, it) ← parseExpression src fuel t.e it
+      let (exp0, it) ← parseExpression src fuel t.e it
+      let exp := { exp0 with omitPreWs := exp0.omitPreWs || chainOmitPre }
       let stk ← (if exp.omitPreWs then removePreviousWhitespace st.tmplStack else pure st.tmplStack)
       let (trim, stk) ← processStandalone stk src t.s t.e true opts.isPartial
       let ibw := trim && !exp.omitPreWs
@@ -506,7 +516,12 @@ def compileStep (src : Str) (opts : TemplateOptions) (fuel : Nat) (st : CState) 
           pure ({ st with omitProWs := exp.omitProWs, trimLine := trim, tmplStack := stk',
                           helperStack := h :: hs }, it)
     else if rule == some .r_raw_block_text then do
-      let el ← rawString (tokStr src t) (some t) st.omitProWs st.trimLine
+      -- leading space fix
+      let start := if t.s != prevEnd then prevEnd else t.s
+      let text ← (match slice? src start t.e with
+        | some x => CRes.ok x
+        | none => CRes.panic "tpl.raw_block_text.slice")
+      let el ← rawString text (some t) st.omitProWs st.trimLine
       pure ({ st with tmplStack := (Tmpl.empty.pushElement el line col) :: st.tmplStack }, it)
     else if isExprLike rule then do
       let (exp, it) ← parseExpression src fuel t.e it
@@ -567,12 +582,14 @@ def compileStep (src : Str) (opts : TemplateOptions) (fuel : Nat) (st : CState) 
       let (trim, stk) ← processStandalone st.tmplStack src t.s t.e true opts.isPartial
       let text := trimEndMatches (str "}}") (trimStartMatches (str "{{!") (tokStr src t))
       let stk ← frontMut "tpl.comment.front" stk (·.pushElement (.comment text) line col)
-      pure ({ st with tmplStack := stk, trimLine := trim }, it)
+      -- a comment ends the reach of a preceding `~}}`
+      pure ({ st with tmplStack := stk, trimLine := trim, omitProWs := false }, it)
     else if rule == some .r_hbs_comment then do
       let (trim, stk) ← processStandalone st.tmplStack src t.s t.e true opts.isPartial
       let text := trimEndMatches (str "--}}") (trimStartMatches (str "{{!--") (tokStr src t))
       let stk ← frontMut "tpl.comment.front" stk (·.pushElement (.comment text) line col)
-      pure ({ st with tmplStack := stk, trimLine := trim }, it)
+      -- a comment ends the reach of a preceding `~}}`
+      pure ({ st with tmplStack := stk, trimLine := trim, omitProWs := false }, it)
     else pure (st, it))
   let st := if rule != some .r_template then { st with endPos := some t.e } else st
   pure (st, it)
@@ -607,13 +624,19 @@ def compileLoop (src : Str) (opts : TemplateOptions) : Nat → CState → List C
       | .panic p => .panic p
       | .fuel => .fuel
 
-/-- `Template::compile2` -/
-def compile2 (src : Str) (opts : TemplateOptions) : CRes Tmpl :=
+/-- `Template::compile2_inner` -/
+def compile2Inner (src : Str) (opts : TemplateOptions) : CRes Tmpl :=
   match Pest.parse Grammar.rules Grammar.ws .r_handlebars src with
   | .fuel => .fuel
   | .fail => .err { reason := .invalidSyntax, name := some opts.nameOrDefault }
   | .ok _ toks =>
     let it := attachEscapes toks
     compileLoop src opts (4 * it.length + 16) {} it
+
+/-- `Template::compile2` : every compile error names the template it was found in -/
+def compile2 (src : Str) (opts : TemplateOptions) : CRes Tmpl :=
+  match compile2Inner src opts with
+  | .err e => .err (if e.name.isNone then { e with name := some opts.nameOrDefault } else e)
+  | r => r
 
 end Hbs
